@@ -122,7 +122,7 @@ theorem famCtx_initial {Fam : Family} {G : MG Name} {pops : List Name} (σ' : Va
   have hokW : (famCtx Fam G pops σ' h).S.okW (some (popVar targetPop)) [] :=
     ⟨⟨popVar targetPop, rfl, htag⟩, by simp⟩
   have jc : JC (famCtx Fam G pops σ' h) (initialQuery G Y X graphs interventions) G (plainVars G.nodes) := by
-    refine ⟨hokW, ?_, ?_, ?_, (fun z hz => by cases hz), ?_, ?_⟩
+    refine ⟨hokW, ?_, ?_, ?_, (fun z hz => by cases hz), ?_, ?_, plainVars_nodup _⟩
     · intro v hv
       rcases hv with hv | hv
       · exact ⟨(mem_regularNodes.1 hv).1, by simp⟩
